@@ -139,9 +139,11 @@ func doCall(cs *expCase, cl call, cache spec.ResolutionCache, budget int) (r cal
 	optsBefore := optsDump(opts)
 	root := suppliedRoot(cs, cl.Root)
 	// entry points without an options argument use the package-level loader
-	saved := spec.PathLoader
-	spec.PathLoader = loader
-	defer func() { spec.PathLoader = saved }()
+	if !cs.noGlobalLoader {
+		saved := spec.PathLoader
+		spec.PathLoader = loader
+		defer func() { spec.PathLoader = saved }()
+	}
 	var out interface{}
 	var err error
 	verifrt.Steps = 0
